@@ -120,6 +120,16 @@ PROPS["C14"] = dict(
     trusted=["goroutines / timers / Go scheduler are counted by the harness, not modelled; sender held through the fake conn and the injected QueryResendDelay"],
     assumptions=["the traversal issues finitely many DoQuery calls (C03/C04); weak fairness for liveness conclusions"],
 )
+# lookups engine, second case family (harness/cmd/h/lookups_stop.go)
+PROPS["C14"]["rule"] += (" ; lookups engine, stop inside reply processing: the server's IP blocklist (consulted by TraversalNodeFilter under the "
+                         "traversal's lock) parks the reply handler at the k-th of n candidates a reply reveals (nodes / nodes6) or at the responder's own "
+                         "check; meanwhile StopTraversing / Close / ctx of Bootstrap, Get, Put / Get ending on another node's immutable value; after the stop "
+                         "has returned the handler is released (Bootstrap: the remaining nodes answer after the stop with more candidates): the number of "
+                         "traversal queries begun must stay what it was at the hold (line lkbegun against the model's TIssue count, oracle "
+                         "query-started-after-stop:*); announce with a consumer that pauses after j responses while up to 3 more responses wait, then "
+                         "StopTraversing / Close, then a slow resume; a child process dying in any lookups case is a C14 line (lookup-process-died:*)")
+PROPS["C14"]["trusted"] += ["traversal.Operation calls its NodeFilter with the operation lock held (addNodeLocked / addClosest): the hold point of the "
+                            "stop-inside-reply cases; recognised by a traversal frame on the blocklist's call stack"]
 PROPS["C16"] = dict(
     engines=["lookups"],
     rule="lookups engine: Server.Announce / AnnounceTraversal on a fake conn against simulated networks of 3-14 nodes (distinct tokens, no token, "
